@@ -8,7 +8,7 @@ whitelist of builtins are interpreted.  Anything else raises ``Unknown``.
 """
 import ast
 
-from .srcmodel import Unknown, FuncRef, func_params
+from .srcmodel import Unknown, FuncRef, Regex, func_params
 
 
 class _Return(Exception):
@@ -197,6 +197,15 @@ class _Interp(object):
                         raise Unknown("method raised %s" % e)
                 if isinstance(base, (dict,)) and f.attr in ("get", "items", "keys", "values"):
                     return getattr(base, f.attr)(*args)
+                if isinstance(base, Regex) and f.attr in ("match", "search", "fullmatch", "sub"):
+                    # constant folding of a regex constant applied to a constant string (stdlib re, no ural code)
+                    import re as _re
+                    try:
+                        rx = _re.compile(base.pattern, base.flags)
+                        r = getattr(rx, f.attr)(*args)
+                    except Exception as e:
+                        raise Unknown("regex op raised %s" % e)
+                    return r if f.attr == "sub" else (r is not None)
                 raise Unknown("method %s on %s" % (f.attr, type(base).__name__))
             if dn == "os.path.splitext":
                 import posixpath
